@@ -47,10 +47,11 @@ try:
     # run checks from an isolated copy of /verif
     ver = os.path.join(work, "verif")
     # untracked, non-ignored files (work in progress of other agents) are left out
-    others = subprocess.run("git -C /verif ls-files --others --exclude-standard", shell=True, stdout=subprocess.PIPE, text=True).stdout
+    SRC = os.environ.get("SEEDTEST_VERIF", "/verif")   # a built copy of a commit of /verif may stand in
+    others = subprocess.run("git -C %s ls-files --others --exclude-standard" % SRC, shell=True, stdout=subprocess.PIPE, text=True).stdout
     exf = os.path.join(work, "exclude.txt")
     open(exf, "w").write("".join("/" + l + "\n" for l in others.split("\n") if l))
-    sh("rsync -a --exclude .git --exclude 'build/bundles' --exclude 'build/cases' --exclude replays --exclude-from=%s /verif/ %s/" % (exf, ver))
+    sh("rsync -a --exclude .git --exclude 'build/bundles' --exclude 'build/cases' --exclude replays --exclude-from=%s %s/ %s/" % (exf, SRC, ver))
     os.makedirs(os.path.join(ver, "replays"), exist_ok=True)
     res["checks"] = {}
     for p in props:
